@@ -326,8 +326,11 @@ func signalInheritedIgnored(sig syscall.Signal, name, trap string) cellResult {
 	return res
 }
 
-func signalBeforeWriters(sig syscall.Signal, name string) cellResult {
+func signalBeforeWriters(sig syscall.Signal, name string, pathChange ...string) cellResult {
 	res := cellResult{Cell: name + "/no-writer-has-opened-the-pipes"}
+	if len(pathChange) > 0 {
+		res.Cell += "+audit-pipe-path-" + pathChange[0]
+	}
 	d := &daemon{dir: newDir()}
 	defer os.RemoveAll(d.dir)
 	d.sshdPath = filepath.Join(d.dir, "sshd-pipe")
@@ -342,6 +345,14 @@ func signalBeforeWriters(sig syscall.Signal, name string) cellResult {
 	}
 	defer d.kill()
 	time.Sleep(300 * time.Millisecond)
+	if len(pathChange) > 0 {
+		// whoever manages the pipes removes (and re-makes) one while the daemon waits on it
+		_ = os.Remove(d.auditPath)
+		if pathChange[0] == "recreated" {
+			mkfifo(d.auditPath)
+		}
+		time.Sleep(50 * time.Millisecond)
+	}
 	t0 := time.Now()
 	_ = d.cmd.Process.Signal(sig)
 	exited, code := d.waitExit(exitBound)
@@ -570,6 +581,8 @@ func runC08(run *mc.Run) int {
 	judge(signalInheritedIgnored(syscall.SIGINT, "sigint", "INT"))
 	judge(signalInheritedIgnored(syscall.SIGTERM, "sigterm", "TERM"))
 	judge(signalBeforeWriters(syscall.SIGTERM, "sigterm"))
+	judge(signalBeforeWriters(syscall.SIGTERM, "sigterm", "removed"))
+	judge(signalBeforeWriters(syscall.SIGTERM, "sigterm", "recreated"))
 	if run.Thorough() {
 		judge(signalBeforeWriters(syscall.SIGINT, "sigint"))
 	}
@@ -594,7 +607,7 @@ func runC08(run *mc.Run) int {
 		}
 	}
 	cov := mc.Coverage{Level: "fault_enumeration", Evaluations: len(results), Distinct: len(results) - inconclusive, Exhaustive: inconclusive == 0, Samples: samples,
-		Rule:  "fault enumeration on the built binary over real FIFOs: 10 run-time causes (sshd pipe EOF, sshd writer dying mid-line with a replacement writer connecting 300 ms later (idle and stalled-output only), audit pipe EOF, unparsable audit line, a LOGIN record whose pid is not a number, a login the correlator rejects while the next login is already buffered, output /dev/full, output FIFO whose reader left, SIGTERM, SIGINT) x load {idle, stalled-output: the events FIFO is never drained so the line buffer and the audit pipe stay full (write end accepts no byte for >=300 ms), saturated: a writer keeps the audit FIFO full - single-record events written at full speed, >=8 MB written and the pipe found full >=50 times - flow equilibrium with the 10000-slot line buffer full}, 2 cells with -metrics -healthz -audit-metrics -log-level debug (every optional worker running) and an HTTP client stalled mid-response (pipelined /metrics requests, never read) x {audit pipe EOF, SIGTERM}, SIGINT / SIGTERM to a daemon that was started with that signal ignored (inherited disposition), 6 start-up causes (sshd/audit path is a regular file, a directory, missing); oracle: the process exits within 10 s of the cause, non-zero for failures. A cell whose set-up could not be reached is inconclusive (exit 0, exhaustive=false). distinct_nontrivial = conclusive cells",
+		Rule:  "fault enumeration on the built binary over real FIFOs: 10 run-time causes (sshd pipe EOF, sshd writer dying mid-line with a replacement writer connecting 300 ms later (idle and stalled-output only), audit pipe EOF, unparsable audit line, a LOGIN record whose pid is not a number, a login the correlator rejects while the next login is already buffered, output /dev/full, output FIFO whose reader left, SIGTERM, SIGINT) x load {idle, stalled-output: the events FIFO is never drained so the line buffer and the audit pipe stay full (write end accepts no byte for >=300 ms), saturated: a writer keeps the audit FIFO full - single-record events written at full speed, >=8 MB written and the pipe found full >=50 times - flow equilibrium with the 10000-slot line buffer full}, 2 cells with -metrics -healthz -audit-metrics -log-level debug (every optional worker running) and an HTTP client stalled mid-response (pipelined /metrics requests, never read) x {audit pipe EOF, SIGTERM}, SIGTERM before any writer has opened the pipes (also with the audit pipe's path removed / re-created meanwhile), SIGINT / SIGTERM to a daemon that was started with that signal ignored (inherited disposition), 6 start-up causes (sshd/audit path is a regular file, a directory, missing); oracle: the process exits within 10 s of the cause, non-zero for failures. A cell whose set-up could not be reached is inconclusive (exit 0, exhaustive=false). distinct_nontrivial = conclusive cells",
 		Extra: map[string]any{"cells": results, "saturated_cells_reached": sat, "inconclusive": inconclusive, "bound_s": exitBound.Seconds()}}
 	cov.Assumptions = []string{"the OS scheduler is not controlled; 10 s is the property's bounded time against observed millisecond latencies",
 		"the decisive blocking state (line buffer full, consumer gone) is also decided deterministically by C13's bubble cells"}
